@@ -393,7 +393,11 @@ def parse_evaluation_expression(tokens: TokenTree) -> EvaluationNode:  # noqa: C
                 continue
 
             if (token.type, token.string) == _operator:
-                assert 0 < i < len(tokens) - 1
+                if not 0 < i < len(tokens) - 1:
+                    raise XPathParsingError(
+                        position=token.position,
+                        message=f"Operator `{token.string}` misses an operand.",
+                    )
                 left = parse_evaluation_expression(tokens[:i])
                 right = parse_evaluation_expression(tokens[i + 1 :])
 
